@@ -661,3 +661,150 @@ Proof.
   destruct (nth_error (es_rs s) j) as [g|] eqn:E; auto. simpl.
   rewrite existsb_seq; auto. apply nth_error_Some. congruence.
 Qed.
+
+Lemma list_eq_nth_error {A} : forall (l l' : list A), (forall j, nth_error l j = nth_error l' j) -> l = l'.
+Proof.
+  induction l as [|a t IH]; intros [|b u] H; auto.
+  - specialize (H O). discriminate.
+  - specialize (H O). discriminate.
+  - pose proof (H O) as H0. simpl in H0. inversion H0; subst. f_equal. apply IH. intros j. apply (H (S j)).
+Qed.
+
+Lemma owner0_none : forall s, key_present s = false -> e_owner_idx s = None.
+Proof.
+  intros s H. unfold key_present in H. rewrite owner_idx_unfold. unfold e_owner_lease.
+  destruct (e_key s); [discriminate|reflexivity].
+Qed.
+
+Lemma tick_ok : forall v s, ms s -> vr v s -> step_ok_for v s MTickAll.
+Proof.
+  intros v s M V. unfold step_ok_for.
+  pose proof (ms_reach_mop s MTickAll M) as R'.
+  pose proof (reachable_lease_ok s (ms_reach s M)) as LK.
+  pose proof V as [Vk Vo Va].
+  destruct (tick_all_shape s (ms_stable s M)) as (Hkv & Hst1 & Hnth).
+  set (s1 := fst (e_mop s MTickAll)) in *.
+  assert (Hm : e_mop s MTickAll = (s1, e_obs s1 ResNone true)) by reflexivity.
+  rewrite Hm. clear Hm.
+  set (lv := e_lease_live (es_kv s)) in *.
+  assert (Hleases : map g_lease (es_rs s1) = map g_lease (es_rs s)).
+  { apply list_eq_nth_error. intros j. rewrite !nth_error_map, Hnth.
+    destruct (nth_error (es_rs s) j); simpl; auto. rewrite tick_reg_lease. reflexivity. }
+  assert (Hkp : key_present s1 = key_present s) by (apply key_present_ext; apply (ks_kvs _ _ Hkv)).
+  assert (Hoi : e_owner_idx s1 = e_owner_idx s) by (apply owner_idx_ext; [apply (ks_kvs _ _ Hkv)|exact Hleases]).
+  assert (Hact1 : forall j, active_at s1 j <-> exists g, nth_error (es_rs s) j = Some g /\ g_pc g = EActive /\ lv (g_lease g) = true).
+  { intros j. unfold active_at. rewrite Hnth. split.
+    - intros (g1 & E1 & P1). destruct (nth_error (es_rs s) j) as [g|] eqn:Eg; [|discriminate].
+      simpl in E1. inversion E1; subst g1. exists g. split; auto.
+      unfold tick_reg in P1. destruct (g_pc g) eqn:Pg; try congruence.
+      destruct (lv (g_lease g)) eqn:L; auto. simpl in P1. discriminate.
+    - intros (g & Eg & Pg & L). rewrite Eg. simpl. eexists. split; [reflexivity|].
+      unfold tick_reg. rewrite Pg, L. exact Pg. }
+  assert (Hclosed : forall j g, nth_error (es_rs s) j = Some g -> g_pc g = EActive ->
+                    closed_at (e_obs s1 ResNone true) j = negb (lv (g_lease g))).
+  { intros j g Eg Pg. rewrite closed_at_obs, Hnth, Eg. simpl. unfold tick_reg. rewrite Pg.
+    destruct (lv (g_lease g)); unfold is_closed; [rewrite Pg|]; reflexivity. }
+  assert (Hfilter : forall j, In j (filter (fun i => negb (closed_at (e_obs s1 ResNone true) i)) (v_active v))
+                              <-> active_at s1 j).
+  { intros j. rewrite filter_In, Hact1. split.
+    - intros [Hin Hc]. apply Va in Hin. destruct Hin as (g & Eg & Pg). exists g. split; auto. split; auto.
+      rewrite (Hclosed j g Eg Pg) in Hc. rewrite negb_involutive in Hc. exact Hc.
+    - intros (g & Eg & Pg & L). split; [apply Va; exists g; auto|].
+      rewrite (Hclosed j g Eg Pg), L. reflexivity. }
+  (* shape of ok_step for the plain etcd mode *)
+  cbn [ok_step is_w is_etcd mode_of andb negb orb].
+  cbn [e_obs o_key]. fold (key_present s1). rewrite Hkp.
+  set (act := filter (fun i => negb (closed_at (e_obs s1 ResNone true) i)) (v_active v)) in *.
+  assert (Hcheck : forallb (fun i => key_present s &&
+             onat_eqb (if key_present s then (if key_present s then v_owner v else None) else None) (Some i)) act = true).
+  { apply forallb_forall. intros j Hj. apply Hfilter in Hj. apply Hact1 in Hj. destruct Hj as (g & Eg & Pg & L).
+    pose proof (ereachable_ok s (ms_reach s M)) as (_ & _ & _ & _ & _ & A).
+    destruct (A g (nth_error_In _ _ Eg)) as [x [E Ex]]; [left; auto|exact L|].
+    destruct (key_one s x E) as (_ & K2 & _). rewrite K2. cbn [andb].
+    destruct (ms_owner_idx s x M E) as (c & gown & Hc & Hpc & Elc & Ho).
+    assert (c = j).
+    { destruct LK as (_ & _ & C). eapply C; eauto; try congruence.
+      rewrite Elc, Ex. pose proof (active_lease_pos s j g (ms_reach s M) Eg Pg). lia. }
+    subst c. rewrite Vo, Ho. simpl. apply Nat.eqb_refl. }
+  destruct (key_present s) eqn:Kp.
+  - rewrite Hcheck. split; auto. split.
+    + split; auto. intros x Ex. rewrite (ks_kvs _ _ Hkv) in Ex.
+      destruct (ms_owner_idx s x M Ex) as (c & gown & Hc & Hpc & Elc & _).
+      destruct (kvs_cases s (ms_reach s M)) as [E0|[x0 [E0 Lx0]]]; [congruence|].
+      assert (x0 = x) by congruence. subst x0.
+      assert (active_at s1 c) as (g1 & E1 & P1).
+      { apply Hact1. exists gown. split; auto. split; auto. unfold lv. rewrite Elc. exact Lx0. }
+      exists c, g1. split; auto. split; auto.
+      rewrite Hnth, Hc in E1. simpl in E1. inversion E1. rewrite tick_reg_lease. exact Elc.
+    + split; cbn [v_key v_owner v_active]; auto; try congruence.
+  - rewrite Hcheck. split; auto. split.
+    + split; auto. intros x Ex. rewrite (ks_kvs _ _ Hkv) in Ex.
+      destruct (key_one s x Ex) as (_ & K2 & _). congruence.
+    + split; cbn [v_key v_owner v_active]; auto; try congruence.
+      rewrite Hoi. symmetry. apply owner0_none. exact Kp.
+Qed.
+
+(* ---- all schedules ---- *)
+Lemma op_ok : forall v s m, ms s -> vr v s ->
+  match m with MReg i => e_can_reg s i = true | _ => True end -> step_ok_for v s m.
+Proof.
+  intros v s m M V L. destruct m.
+  - apply reg_ok; auto.
+  - apply lapse_ok; auto.
+  - apply tick_ok; auto.
+  - apply stop_ok; auto.
+Qed.
+
+Lemma ok_run_model : forall ops v s, ms s -> vr v s -> e_legal s ops = true ->
+  ok_run BEtcd v ops (e_run s ops) = true.
+Proof.
+  induction ops as [|m t IH]; intros v s M V L; [reflexivity|].
+  cbn [e_legal] in L. apply andb_true_iff in L. destruct L as [L1 L2].
+  assert (Hop : step_ok_for v s m).
+  { apply op_ok; auto. destruct m; auto. }
+  unfold step_ok_for in Hop. cbn [e_run].
+  destruct (e_mop s m) as [s' o] eqn:Em. cbn [ok_run].
+  destruct (ok_step BEtcd v m o) as [r v'] eqn:Eo.
+  destruct Hop as (Hr & M' & V'). rewrite Hr. cbn [andb].
+  apply IH; auto.
+Qed.
+
+Lemma init_regs : forall l kv rs,
+  run_skip estep (mkES kv rs) (map GNew l) = mkES kv (rs ++ map (fun ttl => mkEreg EInit 0 ttl) l).
+Proof.
+  induction l as [|a t IH]; intros kv rs; simpl.
+  - rewrite app_nil_r. reflexivity.
+  - rewrite IH. rewrite <- app_assoc. reflexivity.
+Qed.
+
+Lemma init_ms_vr : forall ttls,
+  let s0 := run_skip estep esys_init (map GNew ttls) in
+  ms s0 /\ vr (mkView [] None false None) s0.
+Proof.
+  intros ttls s0.
+  assert (Hs0 : s0 = mkES etcd_init (map (fun ttl => mkEreg EInit 0 ttl) ttls)).
+  { unfold s0, esys_init. rewrite init_regs. reflexivity. }
+  assert (Hinit : forall g, In g (es_rs s0) -> g_pc g = EInit).
+  { intros g Hg. rewrite Hs0 in Hg. cbn [es_rs] in Hg. apply in_map_iff in Hg. destruct Hg as [t [<- _]]. reflexivity. }
+  assert (E : e_kvs (es_kv s0) = []) by (rewrite Hs0; reflexivity).
+  destruct (key_empty s0 E) as (K1 & K2 & K3).
+  split.
+  - split.
+    + apply e_init_reach.
+    + intros g Hg. left. auto.
+    + intros x Ex. rewrite E in Ex. discriminate.
+  - split; cbn [v_key v_owner v_active]; auto.
+    intros i. split; [intros []|]. intros (g & Hg & Hp).
+    rewrite (Hinit g (nth_error_In _ _ Hg)) in Hp. discriminate.
+Qed.
+
+(* the boolean reflection of C26 is true on what the etcd model produces, for every
+   schedule the harness can produce (a registrant is (re)started only when it is
+   not registered), of any length, over any number of registrants *)
+Theorem ok_accepts_etcd_model : forall ttls ops,
+  e_legal (run_skip estep esys_init (map GNew ttls)) ops = true ->
+  ok (mkCase BEtcd ttls ops (model_obs (mkCase BEtcd ttls ops []))) = true.
+Proof.
+  intros ttls ops L. unfold ok, model_obs. cbn [k_backend k_ttls k_ops k_obs].
+  destruct (init_ms_vr ttls) as [M V]. apply ok_run_model; auto.
+Qed.
